@@ -489,6 +489,49 @@ def run(ctx):
                        "V" if i in vparams else "_" for i in range(len(fn.params)))))
     ctx.floor("C12.R5", n5, 20, "uses of caller-provided values in element construction")
 
+    # ---------------------------------------------------------------- R7 assignment replaces (after seed C12-6)
+    # operator= / assign give the vector the contents of their source: whatever they append must land behind a reset of
+    # the size (clear(), a delegation to another assign / operator=, or a swap with the source) on every path
+    n7 = 0
+    GROW = ("emplace_back", "push_back", "resize", "insert", "emplace")
+    RESET = ("clear", "assign", "operator=", "swap")
+    for fn in vfns:
+        if fn.name not in ("operator=", "assign"):
+            continue
+        ig = IG(fn, inline=nin)
+        live = ig.live_nodes()
+        evs = [n for n in ig.ev_nodes() if n.id in live]
+
+        def own_call(n, names, fn=fn):
+            if n.ev["e"] != "call" or n.ev.get("name") not in names:
+                return False
+            callee = ig.tu.fns.get(n.ev.get("cid"))
+            if callee is not None:
+                return callee.record == fn.record
+            return strip_cast(n.ev.get("this", {})).get("k") == "this" if isinstance(strip_cast(n.ev.get("this", {})), dict) else False
+
+        def lam_grows(n):
+            for a in n.ev.get("args", []) or []:
+                lf = L.lambda_of(ig, a)
+                if lf is not None and lf.has_cfg() and any(
+                        e["e"] == "call" and e.get("name") in GROW and (ig.tu.fns.get(e.get("cid")) is None or
+                                                                        ig.tu.fns.get(e.get("cid")).record == fn.record)
+                        for _, e in lf.all_events()):
+                    return True
+            return False
+        grows = [n for n in evs if own_call(n, GROW) or (n.ev["e"] in ("call", "ctor") and lam_grows(n))]
+        resets = [n for n in evs if own_call(n, RESET)] + [
+            n for n in evs if n.ev["e"] == "asg" and this_field(n.ev.get("lhs"), "_size") and n.ev.get("op") == "=" and const_val(n.ev.get("rhs")) == 0]
+        if not grows and not resets:
+            continue
+        n7 += 1
+        bad = [g for g in grows if not ig.dominated_by(g, resets)]
+        ctx.ob("C12.R7", short(fn), not bad, bad[0].where if bad else fn.loc,
+               "%s appends the source's elements (line %s) on a path that did not reset the size first: the old contents stay in front "
+               "of the new ones, where std::vector's assignment replaces them" % (fn.name, bad[0].line if bad else 0),
+               site=fsite(fn, "assignment-replaces"))
+    ctx.floor("C12.R7", n7, 8, "operator= / assign instances that rebuild or delegate")
+
     # ---------------------------------------------------------------- R3 manager protocol
     n3 = 0
     for fn in fb.find(pred=lambda f: re.match(r"^babylon::ReusableManager<", f.record or "") and f.name == "clear" and
